@@ -404,6 +404,29 @@ def validate_traces(module: str, traces: list, *, cfg: str | None = None, header
     return verdicts, stats
 
 
+def run_sliced(fn, jobs, module, *, slice_size=400000, chunk=400, trace_of=None, keep=None, **vkw):
+    """pmap + validate_traces in slices (bounded memory for the thorough tiers).
+    trace_of(result) -> trace; keep(result) -> small per-job value kept for the caller.
+    Returns (verdicts, stats, kept, first_traces) aligned with jobs."""
+    trace_of = trace_of or (lambda r: r)
+    verdicts, kept, first = [], [], []
+    acc = {"generated": 0, "distinct": 0, "shards": 0, "tlc_wall": 0.0}
+    for lo in range(0, len(jobs), slice_size):
+        res = pmap(fn, jobs[lo: lo + slice_size], chunk=chunk)
+        traces = [trace_of(r) for r in res]
+        if keep is not None:
+            kept += [keep(r) for r in res]
+        del res
+        if not first:
+            first = traces[:50]
+        vs, st = validate_traces(module, traces, **vkw)
+        verdicts += vs
+        for k in acc:
+            acc[k] += st[k]
+        del traces
+    return verdicts, acc, kept, first
+
+
 # --------------------------------------------------------------------------------------------
 # running the implementation in parallel
 # --------------------------------------------------------------------------------------------
